@@ -137,7 +137,8 @@ def _validate_chunk(prop, cfg, lines, v, drv, classify, max_fail, timeout, modul
                 break
             inv, fresh = reproduce(drv, cfg, grp, module=module)
         rec = json.loads(lines[idx])
-        if inv is None and not require_repro:
+        if inv is None and not require_repro and r.violated != "C06_Time":
+            # (a wall-clock observation that does not repeat is a load artefact, not behaviour: that one stays exit 2)
             # determinism properties: the recorded calls ARE real behaviour (outputs of pure calls, no timing in the observation)
             rec["_reproduced"] = False
             inv = r.violated
@@ -267,7 +268,7 @@ def run_design(keys, tier):
 
 
 def run_snap_property(prop, tier, cfg, plans, rule, classify=None, second_process=False, min_valid_frac=0.0,
-                      extra_cov=None, assumptions=None, extra_lines=None, post=None, real_plans=None, real_cfg=None, require_repro=True,
+                      extra_cov=None, assumptions=None, extra_lines=None, post=None, real_plans=None, real_cfg=None, require_repro=False,
                       design=("snap",), steps_plans=None, steps_cfg=None):
     t0 = time.time()
     v = vlib.Verdict(prop)
